@@ -8,15 +8,36 @@
 (* index, errors reported and skipped), merge into the group's running     *)
 (* result, next chunk; Decide when both groups are done                    *)
 (* (internal/driver/fetch.go grabSourcesAndBases / chunkedGrab /           *)
-(* concurrentGrab).  The outcome of every fetch is fixed up front (ok).    *)
+(* concurrentGrab).                                                        *)
+(* The outcome of a fetch is a function of the source and of the run's     *)
+(* configuration, never of the schedule.  out[g][i] is the CLASS of the    *)
+(* source, fixed up front:                                                 *)
+(*   "ok"      delivers a profile (plug-in, readable profile file)         *)
+(*   "fail"    fails by itself (plug-in error, invalid profile, missing or *)
+(*             garbage file, error status with a useless body)             *)
+(*   "errbody" a URL answered with a status other than 200 and a           *)
+(*             well-formed profile as the body: a failed source            *)
+(*   "remote"  a URL answered with 200 and a profile, fetched through the  *)
+(*             transport all fetches of the run share; the transport's     *)
+(*             one-time initialisation (the TLS files) succeeds or fails   *)
+(*             for the whole run (tlsok): when it fails EVERY fetch that   *)
+(*             goes through the transport fails, not only the one that     *)
+(*             happened to run the initialisation                          *)
+(* (internal/driver/fetch.go fetch / fetchURL,                             *)
+(* internal/transport/transport.go RoundTrip).  Ok(g, i) is that function; *)
+(* got[g][i] is what the fetch delivered when it completed.                *)
 (* Broken designs, rejected by TLC: "completionOrder" (results appended    *)
 (* when a fetch completes), "emptyChunkFails" (a chunk in which every      *)
 (* fetch failed aborts the group), "noBarrier" (collect when the first     *)
-(* fetch of a chunk completes).                                            *)
+(* fetch of a chunk completes), "initErrOnce" (only the fetch that runs    *)
+(* the transport's initialisation sees its error, the later ones go        *)
+(* through), "errBodyParsed" (the body of an error answer is parsed and,   *)
+(* when it is a profile, taken).                                           *)
 (***************************************************************************)
 EXTENDS Integers, Sequences, FiniteSets, TLC, SequencesExt, Json
 
-CONSTANTS NSrc, NBase, ChunkSize, Emit, Broken
+CONSTANTS NSrc, NBase, ChunkSize, Emit, Broken,
+          Classes    \* "local": sources are "ok" / "fail"; "remote": "ok" / "errbody" / "remote", both transport set-ups; "all"
 
 Groups == {"src", "base"}
 N(g) == IF g = "src" THEN NSrc ELSE NBase
@@ -24,7 +45,13 @@ ChunkOf(i) == (i - 1) \div ChunkSize + 1
 NChunks(g) == (N(g) + ChunkSize - 1) \div ChunkSize
 Members(g, c) == {i \in 1..N(g) : ChunkOf(i) = c}
 
-VARIABLES ok,        \* ok[g][i]: will this fetch succeed (fixed at the start)
+OutClasses == CASE Classes = "local" -> {"ok", "fail"} [] Classes = "remote" -> {"ok", "errbody", "remote"} [] OTHER -> {"ok", "fail", "errbody", "remote"}
+ViaTransport == {"errbody", "remote"}
+
+VARIABLES out,       \* out[g][i]: the class of the source (fixed at the start)
+          tlsok,     \* does the one-time initialisation of the shared transport succeed (fixed at the start)
+          got,       \* got[g][i]: did the completed fetch deliver a profile
+          once,      \* has the transport's one-time initialisation been run
           st,        \* st[g][i] \in {"idle", "running", "done"}
           chunk,     \* chunk[g]: the chunk being fetched (NChunks+1 = group finished)
           acc,       \* acc[g]: sources merged so far, in merge order
@@ -32,9 +59,15 @@ VARIABLES ok,        \* ok[g][i]: will this fetch succeed (fixed at the start)
           aborted,   \* aborted[g]: the group gave up with an error
           order,     \* history: the order in which fetches completed
           result     \* "pending" | "report" | "fail"
-vars == <<ok, st, chunk, acc, errs, aborted, order, result>>
+vars == <<out, tlsok, got, once, st, chunk, acc, errs, aborted, order, result>>
 
-Init == /\ ok \in [Groups -> [1..3 -> BOOLEAN]] /\ \A g \in Groups : \A i \in 1..3 : i > N(g) => ok[g][i]
+\* the outcome as a function of the source and the configuration
+Ok(g, i) == out[g][i] = "ok" \/ (out[g][i] = "remote" /\ tlsok)
+
+Init == /\ out \in [Groups -> [1..3 -> OutClasses]] /\ \A g \in Groups : \A i \in 1..3 : i > N(g) => out[g][i] = "ok"
+        \* a failing initialisation only matters to runs in which something goes through the transport
+        /\ tlsok \in BOOLEAN /\ (tlsok \/ \E g \in Groups : \E i \in 1..N(g) : out[g][i] \in ViaTransport)
+        /\ got = [g \in Groups |-> [i \in 1..3 |-> FALSE]] /\ once = FALSE
         /\ st = [g \in Groups |-> [i \in 1..3 |-> "idle"]]
         /\ chunk = [g \in Groups |-> 1] /\ acc = [g \in Groups |-> <<>>] /\ errs = [g \in Groups |-> <<>>]
         /\ aborted = [g \in Groups |-> FALSE] /\ order = <<>> /\ result = "pending"
@@ -42,38 +75,44 @@ Init == /\ ok \in [Groups -> [1..3 -> BOOLEAN]] /\ \A g \in Groups : \A i \in 1.
 Active(g) == chunk[g] <= NChunks(g) /\ ~aborted[g]
 Start(g, i) == /\ Active(g) /\ i \in Members(g, chunk[g]) /\ st[g][i] = "idle"
                /\ st' = [st EXCEPT ![g][i] = "running"]
-               /\ UNCHANGED <<ok, chunk, acc, errs, aborted, order, result>>
+               /\ UNCHANGED <<out, tlsok, got, once, chunk, acc, errs, aborted, order, result>>
+Delivered(g, i) == CASE Broken = "initErrOnce" /\ out[g][i] = "remote" /\ ~tlsok -> once     \* the error stays with the fetch that initialised
+                     [] Broken = "errBodyParsed" /\ out[g][i] = "errbody" /\ tlsok -> TRUE                   \* the answer's body is taken
+                     [] OTHER -> Ok(g, i)
 Complete(g, i) ==
   /\ Active(g) /\ st[g][i] = "running"
   /\ st' = [st EXCEPT ![g][i] = "done"]
   /\ order' = Append(order, <<g, i>>)
-  /\ acc' = IF Broken = "completionOrder" /\ ok[g][i] THEN [acc EXCEPT ![g] = Append(@, i)] ELSE acc
-  /\ UNCHANGED <<ok, chunk, errs, aborted, result>>
+  /\ got' = [got EXCEPT ![g][i] = Delivered(g, i)]
+  /\ once' = (once \/ out[g][i] \in ViaTransport)
+  /\ acc' = IF Broken = "completionOrder" /\ Delivered(g, i) THEN [acc EXCEPT ![g] = Append(@, i)] ELSE acc
+  /\ UNCHANGED <<out, tlsok, chunk, errs, aborted, result>>
 \* after the barrier: results collected by index, failures reported and skipped, chunk merged into the group
 InOrder(S) == SetToSortSeq(S, <)
 Collect(g) ==
   /\ Active(g)
   /\ IF Broken = "noBarrier" THEN \E i \in Members(g, chunk[g]) : st[g][i] = "done"
      ELSE \A i \in Members(g, chunk[g]) : st[g][i] = "done"
-  /\ LET good == {i \in Members(g, chunk[g]) : ok[g][i] /\ st[g][i] = "done"}
-         bad == {i \in Members(g, chunk[g]) : ~ok[g][i]} IN
+  /\ LET good == {i \in Members(g, chunk[g]) : got[g][i] /\ st[g][i] = "done"}
+         bad == {i \in Members(g, chunk[g]) : ~got[g][i] /\ st[g][i] = "done"} IN
      /\ acc' = IF Broken = "completionOrder" THEN acc ELSE [acc EXCEPT ![g] = @ \o InOrder(good)]
      /\ errs' = [errs EXCEPT ![g] = @ \o InOrder(bad)]
      /\ aborted' = IF Broken = "emptyChunkFails" /\ good = {} THEN [aborted EXCEPT ![g] = TRUE] ELSE aborted
   /\ chunk' = [chunk EXCEPT ![g] = @ + 1]
-  /\ UNCHANGED <<ok, st, order, result>>
+  /\ UNCHANGED <<out, tlsok, got, once, st, order, result>>
 Finished(g) == chunk[g] > NChunks(g) \/ aborted[g]
 Decide == /\ result = "pending" /\ Finished("src") /\ Finished("base")
           /\ result' = IF aborted["src"] \/ aborted["base"] \/ Len(acc["src"]) = 0 \/ (NBase > 0 /\ Len(acc["base"]) = 0) THEN "fail" ELSE "report"
-          /\ (Emit => PrintT(ToJson([nsrc |-> NSrc, nbase |-> NBase, srcok |-> [i \in 1..NSrc |-> ok["src"][i]], baseok |-> [i \in 1..NBase |-> ok["base"][i]],
+          /\ (Emit => PrintT(ToJson([nsrc |-> NSrc, nbase |-> NBase, srcout |-> [i \in 1..NSrc |-> out["src"][i]], baseout |-> [i \in 1..NBase |-> out["base"][i]], tlsok |-> tlsok,
                                      order |-> [k \in DOMAIN order |-> [g |-> order[k][1], i |-> order[k][2]]]])))
-          /\ UNCHANGED <<ok, st, chunk, acc, errs, aborted, order>>
+          /\ UNCHANGED <<out, tlsok, got, once, st, chunk, acc, errs, aborted, order>>
 Next == (\E g \in Groups : \E i \in 1..3 : Start(g, i) \/ Complete(g, i)) \/ (\E g \in Groups : Collect(g)) \/ Decide
 Spec == Init /\ [][Next]_vars /\ WF_vars(Next)
 
 \* ---- properties
-Succeeded(g) == InOrder({i \in 1..N(g) : ok[g][i]})
-Failed(g) == {i \in 1..N(g) : ~ok[g][i]}
+\* ---- all of them in terms of Ok: what a source delivers does not depend on which other fetches ran before it
+Succeeded(g) == InOrder({i \in 1..N(g) : Ok(g, i)})
+Failed(g) == {i \in 1..N(g) : ~Ok(g, i)}
 ResultIsMergeOfSucceededInOrder == result # "pending" => \A g \in Groups : ~aborted[g] => acc[g] = Succeeded(g)
 OneErrorPerFailure == result # "pending" => \A g \in Groups : ~aborted[g] => (ToSet(errs[g]) = Failed(g) /\ Len(errs[g]) = Cardinality(Failed(g)))
 FailsIffGroupEmpty == result # "pending" => (result = "fail" <=> (Succeeded("src") = <<>> \/ (NBase > 0 /\ Succeeded("base") = <<>>)))
